@@ -4,7 +4,8 @@
 // of what was written to the output / error stream (property observable) and
 // the raw texts (internal observable).
 //
-// case line:  <id> f=<flags int> w=<line length> c=<cmd>,<cmd>,...|- a:<...> a:<...> ...
+// case line:  <id> f=<flags int> w=<line length> c=<cmd>,<cmd>,...|- [t1=<b|a|u>:<hex>] [t2=<b|a|u>:<hex>] a:<...> ...
+//   t1 / t2: usage texts (IUsageText) given to the constructor: position before / after / unused, text
 //   cmd:  ph (--print-hidden)  pd (--print-deprecated)  hs (--help-short)  hl (--help-long)
 //         h (-h)  H (--help)  ha=<hex key> (--help-arg <key>)
 //   a:<keyspec>:<kind>:<iv hex>:<letters|->:<repl hex>:<unit hex>:<chk hex~hex..>:<con hex~hex..>:<desc hex>
@@ -25,6 +26,7 @@
 #include "celma/prog_args/level_counter.hpp"
 #include "celma/prog_args/detail/i_check.hpp"
 #include "celma/prog_args/detail/i_arg_constraint.hpp"
+#include "celma/prog_args/i_usage_text.hpp"
 
 namespace pa = celma::prog_args;
 using celma::prog_args::detail::TypedArgBase;
@@ -51,6 +53,22 @@ public:
 private:
    std::string mText;
 };
+
+class TextUsage final : public pa::IUsageText
+{
+public:
+   TextUsage(pa::Handler::UsagePos up, const std::string& text) : IUsageText(up), mText(text) {}
+   void print(std::ostream& os) const override { os << mText; }
+private:
+   std::string mText;
+};
+
+std::unique_ptr<TextUsage> makeText(const std::string& spec)
+{
+   const auto pos = spec[0] == 'b' ? pa::Handler::UsagePos::beforeArgs
+                  : spec[0] == 'a' ? pa::Handler::UsagePos::afterArgs : pa::Handler::UsagePos::unused;
+   return std::unique_ptr<TextUsage>(new TextUsage(pos, vf::unhexs(spec.substr(2))));
+}
 
 const char* excClass(const std::exception& e)
 {
@@ -125,6 +143,7 @@ std::string run_case(const std::vector<std::string>& w)
 {
    int flags = 0, width = 80;
    std::vector<std::string> cmds, argToks;
+   std::unique_ptr<TextUsage> txt1, txt2;
    for (size_t t = 1; t < w.size(); ++t)
    {
       const std::string& tok = w[t];
@@ -132,6 +151,8 @@ std::string run_case(const std::vector<std::string>& w)
       else if (tok.rfind("w=", 0) == 0) width = std::stoi(tok.substr(2));
       else if (tok.rfind("c=", 0) == 0) cmds = vf::split(tok.substr(2), ',');
       else if (tok.rfind("a:", 0) == 0) argToks.push_back(tok);
+      else if (tok.rfind("t1=", 0) == 0) txt1 = makeText(tok.substr(3));
+      else if (tok.rfind("t2=", 0) == 0) txt2 = makeText(tok.substr(3));
    }
    std::ostringstream out, err;
    Vars V;
@@ -139,7 +160,7 @@ std::string run_case(const std::vector<std::string>& w)
    int checkNo = 0;
    try
    {
-      h.reset(new pa::Handler(out, err, flags));
+      h.reset(new pa::Handler(out, err, flags, txt1.get(), txt2.get()));
       if (width != 80) h->setUsageLineLength(width);
       for (auto& a : argToks)
       {
